@@ -214,29 +214,63 @@ def cli_replay_fold(desc):
     return rep
 
 
-def ref_ignore_lang(pattern, root, sigma, strip_leading=True):
+def well_formed(pattern, tool):
+    """the patterns whose meaning the tools' documentation settles: components separated by single slashes, an optional trailing slash
+    (a directory), `**` only as a whole component and not the last one; docker patterns may start with one slash (the context root)"""
+    p = pattern
+    if tool == 'docker' and p.startswith('/'):
+        p = p[1:]
+    if p.endswith('/'):
+        p = p[:-1]
+    comps = p.split('/')
+    if not p or any(c == '' for c in comps) or '\\' in p:
+        return False
+    for k, c in enumerate(comps):
+        if '**' in c and (c != '**' or k == len(comps) - 1):
+            return False
+        if c in ('.', '..'):
+            return False
+    return True
+
+
+def ref_ignore_lang(pattern, root, sigma, tool):
+    """the paths (canonical, below `root`) a glob pattern ignores, by the tools' documented rules:
+      * `*` a run of characters within one component, `?` one such character, `**/` zero or more whole directories;
+      * a pattern ignores the entry it matches AND everything below it; a trailing slash only says "a directory";
+      * hg (`syntax: glob`): the pattern may start at any directory of the repository;  docker: it starts at the context root"""
     nosl = R.anychar(sigma, exclude='/')
     anyc = R.anychar(sigma)
     p = pattern
-    while strip_leading and (p.startswith('/') or p.startswith('\\')):
+    if tool == 'docker' and p.startswith('/'):
         p = p[1:]
-    parts = [z3.Re(root + '/'), z3.Star(z3.Concat(z3.Plus(nosl), z3.Re('/')))]
-    i = 0
-    while i < len(p):
-        if p.startswith('**', i):
-            parts.append(z3.Star(anyc)); i += 2
-        elif p[i] == '*':
-            parts.append(z3.Star(nosl)); i += 1
-        elif p[i] == '?':
-            parts.append(nosl); i += 1
-        else:
-            parts.append(z3.Re(p[i])); i += 1
+    if p.endswith('/'):
+        p = p[:-1]
+    parts = [z3.Re(root + '/')]
+    if tool == 'hg':
+        parts.append(z3.Star(z3.Concat(z3.Plus(nosl), z3.Re('/'))))
+    comps = p.split('/')
+    for k, c in enumerate(comps):
+        if c == '**':
+            parts.append(z3.Star(z3.Concat(z3.Plus(nosl), z3.Re('/'))))       # zero or more directories (its slash included)
+            continue
+        i = 0
+        while i < len(c):
+            if c[i] == '*':
+                parts.append(z3.Star(nosl))
+            elif c[i] == '?':
+                parts.append(nosl)
+            else:
+                parts.append(z3.Re(c[i]))
+            i += 1
+        if k < len(comps) - 1:
+            parts.append(z3.Re('/'))
+    parts.append(z3.Option(z3.Concat(z3.Re('/'), z3.Star(anyc))))
     return z3.Concat(*parts)
 
 
 def ignore_patterns(maxlen):
     syms = PLAIN + ['.', '*', '?', '/'] + META[1:6]
-    out = ['a', '*.a', 'a/', 'a/*.b', '**/a', 'a?', 'a?b', '?', '*', 'a.b']
+    out = ['a', '*.a', 'a/', 'a/*.b', '**/a', 'a?', 'a?b', '?', '*', 'a.b', '**/*.a', 'a/**/b', 'a/b/', '/a', '/*.a']
     for n in range(1, maxlen + 1):
         for t in itertools.product(syms, repeat=n):
             p = ''.join(t)
@@ -258,6 +292,9 @@ def fam_translate(sess, tool):
     order = sorted(range(len(pats)), key=lambda i: (len({c for c in pats[i] if c in META}), len(pats[i])))
     blamed = set()
     for p, (rx, okc) in [(pats[i], res[i]) for i in order]:
+        if not well_formed(p, tool):
+            stats['outside'] = stats.get('outside', 0) + 1
+            continue
         specials = ''.join(sorted({c for c in p if c in META or c == '?'}))
         if any(c in blamed for c in specials):
             continue
@@ -275,8 +312,7 @@ def fam_translate(sess, tool):
         except R.Unparsed as e:
             stats['unparsed'] += 1
             sess.inconclusive('%s %r' % (fam, p), 'generated regex %r outside the translated subset: %s' % (rx, e), fam); continue
-        ref = z3.Concat(ref_ignore_lang(p, root, SIGMA, strip_leading=(tool == 'docker')), z3.Star(R.anychar(SIGMA)))
-        ref = z3.Concat(z3.Star(R.anychar(SIGMA)), ref)         # is_match is a search: the envelope is unanchored on both sides
+        ref = ref_ignore_lang(p, root, SIGMA, tool)             # whole canonical paths: anchored at both ends
         def valid_path(s_):
             bad = ['//', '/./', '/../']
             return And([z3.PrefixOf(z3.StringVal(root + '/'), s_), Not(z3.SuffixOf(z3.StringVal('/'), s_)), Not(z3.SuffixOf(z3.StringVal('/.'), s_)),
@@ -297,6 +333,67 @@ def fam_translate(sess, tool):
     sess.sample({'family': fam, 'stats': stats, 'examples': [(p, r[0]) for p, r in list(zip(pats, res))[:5]]})
     if not roles and not stats['unparsed']:
         sess.discharged('%s: %d patterns: L(filter regex) = L(reference) over all paths below the root' % (fam, len(pats)), family=fam, queries=len(pats))
+
+
+HG_REGEXPS = ['a', '^a', '^a/b', 'b$', '^a$', 'a/b', '^a.b', 'a.*b', '^ab/']
+
+
+def fam_translate_hgrx(sess):
+    """`syntax: regexp` lines of an .hgignore: an unrooted search in the path below the repository top, `^` = the top. The compiled filter
+    (real convert_hgignore_regexp) must accept exactly the canonical paths root/<s> whose <s> the pattern finds"""
+    fam = 'translate/hg-regexp'
+    root = '/r'
+    sess.bounds[fam] = {'patterns': HG_REGEXPS, 'root': root, 'paths': 'every string over %r' % SIGMA}
+    res = R.run_driver([('hgrx', p, root) for p in HG_REGEXPS])
+    roles = {}
+    for p, (rx, okc) in zip(HG_REGEXPS, res):
+        nm = '%s %r' % (fam, p)
+        if not okc or rx is None:
+            sess.violated(nm, 'hg-regexp/rejected', 'the pattern is rejected', {'pattern': p}, None, fam); roles['r'] = True; continue
+        try:
+            impl = R.regex_to_z3(rx, SIGMA, search=True)
+            rel = R.regex_to_z3(p, SIGMA, search=True)
+        except R.Unparsed as e:
+            sess.inconclusive(nm, 'regex %r outside the translated subset: %s' % (rx, e), fam); roles['i'] = True; continue
+        ref = z3.Concat(z3.Re(root + '/'), rel)
+
+        def valid_path(s_):
+            return And([z3.PrefixOf(z3.StringVal(root + '/'), s_), Not(z3.SuffixOf(z3.StringVal('/'), s_)), Not(z3.Contains(s_, z3.StringVal('//')))])
+        verdict, w, in_impl = R.languages_differ(impl, ref, SIGMA, extra=valid_path)
+        if verdict == 'equal':
+            continue
+        if verdict == 'unknown':
+            sess.inconclusive(nm, 'solver: unknown', fam); roles['i'] = True; continue
+        role = 'hg-regexp/' + ('anchored' if p.startswith('^') else 'unrooted')
+        if role in roles:
+            continue
+        roles[role] = True
+        sess.violated(nm, role, 'compiled filter %r: path %r is %s by the filter but hg\'s rule says the opposite' % (rx, w, 'matched' if in_impl else 'not matched'),
+                      {'pattern': p, 'regex': rx, 'path': w}, cli_replay_hgrx(p, w, in_impl), fam)
+    if not roles:
+        sess.discharged('%s: %d patterns: L(filter) = root/ + L(search of the pattern)' % (fam, len(HG_REGEXPS)), family=fam, queries=len(HG_REGEXPS))
+
+
+def cli_replay_hgrx(pattern, path, in_impl):
+    def rep():
+        exe = common.native_binary()
+        d = tempfile.mkdtemp(prefix='verif-c20r-', dir=common.SCRATCH_ROOT)
+        try:
+            rootd = os.path.join(d, 'r'); os.makedirs(os.path.join(rootd, '.hg'))
+            open(os.path.join(rootd, '.hgignore'), 'w').write('syntax: regexp\n%s\n' % pattern)
+            rel = path[len('/r/'):]
+            if not rel or rel.endswith('/') or '//' in rel or any(c in ('', '.', '..') for c in rel.split('/')):
+                return False, 'witness path %r cannot be created' % path
+            full = os.path.join(rootd, rel)
+            os.makedirs(os.path.dirname(full), exist_ok=True)
+            open(full, 'w').write('x')
+            p = subprocess.run([exe, 'path', 'from', rootd, 'hgignore'], cwd=d, env={'PATH': os.environ['PATH'], 'HOME': d, 'TZ': 'UTC'}, stdout=subprocess.PIPE, stderr=subprocess.PIPE, timeout=20)
+            listed = full in p.stdout.decode().split('\n')
+            return (listed != in_impl), 'hg regexp %r, path %r: %s by the real run ; hg\'s rule says it is %s' % (
+                pattern, rel, 'listed' if listed else 'omitted', 'not ignored' if in_impl else 'ignored')
+        finally:
+            shutil.rmtree(d, ignore_errors=True)
+    return rep
 
 
 def cli_replay_translate(tool, pattern, path, in_impl):
@@ -509,8 +606,8 @@ def cli_replay_stray():
 def fam_gitarg(sess):
     """gitignore: the verdict itself is libgit2's (FFI, outside); what IS fselect's is which path it asks about. The real walker with the
     `gitignore` option over the abstract file system (files, directories, links): Repository::is_path_ignored is asked once per listed
-    entry about the entry's OWN path (a link is judged by its own name, not by its target's), and exactly the entries it does not
-    ignore are reported"""
+    entry about the entry ITSELF (a link is judged by its own name, not by its target's) by an ABSOLUTE path (libgit2 reads a relative one
+    from the top of the work tree, not from the current directory), and exactly the entries it does not ignore are reported"""
     prog = sess.prog
     fam = 'gitarg'
     M = 4
@@ -539,6 +636,25 @@ def fam_gitarg(sess):
             if key not in tbl:
                 tbl[key] = ctx.fresh_bool('git_ignores_%s_%s' % key)
             return ok(tbl[key])
+
+        @reg(r'^(std::fs::)?DirEntry::file_name$', 'fs:DirEntry::file_name (the entry\'s own name)')
+        def entry_file_name(ctx, args, callee):
+            e = ctx.deref(args[0])
+            fs = W.fs_of(ctx)
+            nm = W.Str(fs.text[e.node].rsplit('/', 1)[-1])
+            ctx.ghost.setdefault('name_of', {})[nm.s] = e.node
+            return nm
+
+        @reg(r'^(std::path::)?Path::join$', 'Path::join: <canonical directory> + <entry name> denotes that entry, absolutely')
+        def join(ctx, args, callee):
+            a = W.as_path(ctx, args[0]); b = ctx.deref(args[1])
+            fs = W.fs_of(ctx)
+            if isinstance(a, W.CanonPathV) and isinstance(b, W.Str) and b.s in ctx.ghost.get('name_of', {}):
+                n = ctx.ghost['name_of'][b.s]
+                if fs.known_parent.get(n) == a.node:
+                    return W.PathV(n, '/<canonical dir of n%s>/%s' % (a.node, b.s))
+            b = W.as_path(ctx, args[1])
+            return W.PathV(b.node, a.text + '/' + b.text, b.via_link)
 
         @reg(r'^(std::fs::)?canonicalize$', 'fs:canonicalize (resolves a link to its target)')
         def canonicalize(ctx, args, callee):
@@ -576,7 +692,10 @@ def fam_gitarg(sess):
         fs, status = out[1]
         asked = ctx.ghost.get('asked', [])
         trace = [n for n, mem in ctx.ghost.get('trace', [])]
-        bad = [a for a in asked if a[2] or a[1] != fs.text.get(a[0])]
+        # libgit2's contract: the path is taken from the top of the work tree unless it is absolute — a path relative to the current
+        # directory (the spelling the walker uses for a relative root) names another file whenever the search does not start at the top,
+        # and `./x` is no path of the index at all. The question must be about the entry ITSELF (a link's own name), absolutely.
+        bad = [a for a in asked if a[2] or not a[1].startswith('/')]
         # every listed entry is asked about once, and reported iff not ignored
         ver = ctx.ghost.get('verdicts', {})
         cond = []
@@ -587,8 +706,8 @@ def fam_gitarg(sess):
         okrows = (not cond) or ctx.check(Not(And(cond))) == z3.unsat
         if (bad or not okrows) and not box.get('viol'):
             box['viol'] = True
-            what = ('libgit2 is asked about %r (canonical: %s) for the entry %r' % (bad[0][1], bad[0][2], fs.text.get(bad[0][0]))) if bad else 'rows are not the entries libgit2 does not ignore'
-            sess.violated(fam, 'gitarg/' + ('canonical-path' if bad else 'rows'), what, {}, cli_replay_gitarg(), fam)
+            what = ('libgit2 is asked about %r (%s) for the entry %r' % (bad[0][1], 'the fully resolved path: a link is judged by its target' if bad[0][2] else 'relative to the current directory, not to the work tree', fs.text.get(bad[0][0]))) if bad else 'rows are not the entries libgit2 does not ignore'
+            sess.violated(fam, 'gitarg/' + (('canonical-path' if bad[0][2] else 'relative-path') if bad else 'rows'), what, {}, cli_replay_gitarg(), fam)
     ex.explore(run, on_path, time_budget=200)
     if not box.get('viol') and not box.get('bad'):
         sess.discharged('gitarg: is_path_ignored is asked about each entry\'s own path; the rows are the entries it does not ignore', family=fam, queries=box['paths'])
@@ -618,9 +737,14 @@ def cli_replay_gitarg():
             ci = subprocess.run(['git', 'check-ignore', '--stdin'], cwd=repo, env=env, input='\n'.join(allp).encode(), stdout=subprocess.PIPE, stderr=subprocess.PIPE)
             ign = set(ci.stdout.decode().split('\n')[:-1])
             want = sorted(p for p in allp if p not in ign)
-            r = subprocess.run([exe, "select path from '%s' gitignore" % repo], env=env, stdout=subprocess.PIPE, stderr=subprocess.PIPE, timeout=20)
-            got = sorted(os.path.relpath(p, repo) for p in r.stdout.decode().split('\n')[:-1] if not (p == os.path.join(repo, '.git') or p.startswith(os.path.join(repo, '.git') + '/')))
-            return got != want, 'path from <repo> gitignore -> %r ; git check-ignore leaves %r' % (got, want)
+            # the root spelled absolutely, as `.` from the top, and as `..` from a sub-directory: the same entries every time
+            for cwd, root in ((d, repo), (repo, '.'), (os.path.join(repo, 'sub'), '..')):
+                r = subprocess.run([exe, "select path from '%s' gitignore" % root], cwd=cwd, env=env, stdout=subprocess.PIPE, stderr=subprocess.PIPE, timeout=20)
+                rows = [os.path.normpath(os.path.join(cwd, p)) for p in r.stdout.decode().split('\n')[:-1]]
+                got = sorted(os.path.relpath(p, repo) for p in rows if not (p == os.path.join(repo, '.git') or p.startswith(os.path.join(repo, '.git') + '/')))
+                if got != want:
+                    return True, 'path from %s gitignore (cwd %s) -> %r ; git check-ignore leaves %r' % (root, os.path.relpath(cwd, d), got, want)
+            return False, 'path from <repo> gitignore with the root spelled three ways -> %r, as git check-ignore' % (want,)
         finally:
             shutil.rmtree(d, ignore_errors=True)
     return rep
@@ -631,8 +755,9 @@ def main(sess):
     sess.level = 'translation_validation'
     sess.assumptions += [
         'gitignore: the verdict is one call into libgit2 (FFI) — not covered; only its option precedence is',
-        'translate: the structural envelope root/(dir/)* <pattern> <anything> used by fselect (a pattern applies at any depth and to everything below a match) is taken '
-        'as given; what is decided is the translation of the pattern text itself (wildcards per path component, every other character literal)',
+        'translate: the reference is the tools\' documented rule for well-formed glob patterns (components separated by single slashes, optional trailing slash, `**` '
+        'only as a whole leading / inner component): `*` / `?` within one component, `**/` zero or more directories, a match covers whole components and everything below; '
+        'hg patterns may start at any directory, docker patterns at the context root; other pattern texts (empty components, `..`, a trailing `**`) are outside',
         'fold: Regex::is_match uninterpreted per filter; parse_hgignore / parse_dockerignore line handling (comments, syntax: sections, !) is not covered',
     ]
     only = getattr(sess, 'only', None)
@@ -647,3 +772,5 @@ def main(sess):
     for tool in ('docker', 'hg'):
         if not only or 'translate' in only or tool in only:
             fam_translate(sess, tool)
+    if not only or 'translate' in only or 'hg' in only:
+        fam_translate_hgrx(sess)
